@@ -13,6 +13,9 @@ import Rdm.Lemmas.RankingOrder
 import Rdm.Lemmas.RankingLinks
 import Rdm.Lemmas.RankingRound
 import Rdm.Lemmas.RankingReach
+import Rdm.Lemmas.E2EDecide
+import Rdm.Lemmas.E2EUtility
+import Rdm.Lemmas.E2EExamples
 namespace Rdm.Props.C04
 open Rdm
 
@@ -152,5 +155,181 @@ theorem rounding_before_comparison (l : List (Scored Rat)) :
 /-- the constants this property depends on were re-read from the working tree on this run (none of
     them fell back to its pinned value because its declaration could not be located) -/
 theorem facts_fresh : (Facts.staleFacts.all fun n => !["roundPrecision"].contains n) = true := by decide
+
+/-! ## END TO END: the whole `MakeDecision` (model `decideWith` / `Rdm.decide` of Model/Decide.lean)
+
+For the three utility methods — the request's parsed parameters are `.ws`, `.owa` or `.choquet`
+(`e2eIsUtility`) — and for every request, every bias list, every stream function: whatever the biases did to
+criteria, values and parameters, the `result` of the response is exactly `ranking` applied to the scores of
+the considered alternatives of the state that reached `Evaluate` (`resp.final`).  Hence every theorem above
+about `ranking l` is a theorem about the response.  `e2eUtilEntries resp.result` reads the entries back as
+`RankEntry`s (nothing is dropped: `resp.result` is its image under `e2eOfRankEntry`); it is what the driver's
+`check-c04` is evaluated on.  Helper lemmas: `Rdm/Lemmas/E2EDecide.lean`, `Rdm/Lemmas/E2EUtility.lean`. -/
+
+/-- the three utility methods -/
+theorem utility_methods {α : Type} [Num α] (mp : MParams α) :
+    e2eIsUtility mp = true ↔ (∃ wc, mp = .ws wc) ∨ (∃ wc, mp = .owa wc) ∨ (∃ w cs, mp = .choquet w cs) := by
+  refine ⟨e2eIsUtility_cases, ?_⟩
+  rintro (⟨_, rfl⟩ | ⟨_, rfl⟩ | ⟨_, _, rfl⟩) <;> rfl
+
+/-- **the response of a utility method is the utility ranking of the final state** (every number type):
+    `scored` = the considered alternatives of `resp.final`, in `choseToMake` order, each with the value the
+    method gives it under the parameters of `resp.final` (`e2eScored` = `model.Rank`); `result` is
+    `ranking scored`, entry by entry, links included. -/
+theorem decideWith_utility_result_is_ranking {α : Type} [Num α] (exp : α → α)
+    (aspOrder : List (WCrit α) → List (WCrit α)) (req : Request α) (g : Int → Draws α) (resp : Response α)
+    (mp : MParams α) (h : decideWith exp aspOrder req g = .ok resp) (hmp : req.mp = some mp)
+    (hu : e2eIsUtility mp = true) :
+    ∃ scored, e2eScored resp.final = .ok scored ∧ scored.map (·.id) = req.chosen ∧
+      resp.result = (ranking scored).map e2eOfRankEntry ∧ e2eUtilEntries resp.result = ranking scored := by
+  obtain ⟨_, hco, scored, hs, hres⟩ := e2e_decideWith_utility h hmp hu
+  refine ⟨scored, hs, ?_, hres, by rw [hres, e2eUtilEntries_map]⟩
+  rw [(e2e_scored_ok hs).2.2, hco]
+
+/-- what `scored` is: one score per considered alternative of the final state, same order, same id, value =
+    the method's value of that alternative under the final parameters -/
+theorem scored_spelled_out {α : Type} [Num α] (d : DMP α) (scored : List (Scored α))
+    (h : e2eScored d = .ok scored) :
+    scored.length = d.co.length ∧
+    ∀ i (h1 : i < d.co.length) (h2 : i < scored.length),
+      scored[i].id = d.co[i].id ∧ utilityValueOf d.mp d.co[i] = .ok scored[i].v := by
+  obtain ⟨hl, hp, _⟩ := e2e_scored_ok h
+  refine ⟨hl, fun i h1 h2 => ?_⟩
+  have hz : (d.co[i], scored[i]) ∈ d.co.zip scored := by
+    rw [List.mem_iff_getElem]; exact ⟨i, by simp only [List.length_zip]; omega, by simp⟩
+  exact hp _ hz
+
+/-- **C04 clauses 1 + 2 for the whole decision** (rationals): the checker the driver evaluates on Go's output
+    accepts the response of every accepted utility-method request, with any biases -/
+theorem decideWith_utility_check (exp : Rat → Rat) (aspOrder : List (WCrit Rat) → List (WCrit Rat))
+    (req : Request Rat) (g : Int → Draws Rat) (resp : Response Rat) (mp : MParams Rat)
+    (h : decideWith exp aspOrder req g = .ok resp) (hmp : req.mp = some mp) (hu : e2eIsUtility mp = true) :
+    Spec.C04.check (e2eUtilEntries resp.result) = true := by
+  obtain ⟨scored, _, _, _, he⟩ := decideWith_utility_result_is_ranking exp aspOrder req g resp mp h hmp hu
+  rw [he]; exact ranking_check scored
+
+/-- … for `Rdm.decide` -/
+theorem decide_utility_check (exp : Rat → Rat) (req : Request Rat) (seeds : Seeds Rat) (resp : Response Rat)
+    (mp : MParams Rat) (h : Rdm.decide exp req seeds = .ok resp) (hmp : req.mp = some mp)
+    (hu : e2eIsUtility mp = true) : Spec.C04.check (e2eUtilEntries resp.result) = true :=
+  decideWith_utility_check exp _ req _ resp mp h hmp hu
+
+/-- **order**: the values of the response are non-increasing down the list, equal values by ascending id -/
+theorem decideWith_utility_order (exp : Rat → Rat) (aspOrder : List (WCrit Rat) → List (WCrit Rat))
+    (req : Request Rat) (g : Int → Draws Rat) (resp : Response Rat) (mp : MParams Rat)
+    (h : decideWith exp aspOrder req g = .ok resp) (hmp : req.mp = some mp) (hu : e2eIsUtility mp = true) :
+    (e2eUtilEntries resp.result).Pairwise (fun a b => b.v < a.v ∨ (a.v = b.v ∧ a.id ≤ b.id)) := by
+  obtain ⟨scored, _, _, _, he⟩ := decideWith_utility_result_is_ranking exp aspOrder req g resp mp h hmp hu
+  rw [he, ranking_eq]
+  unfold entriesOf
+  rw [List.pairwise_map]
+  refine (mergeSort_rankLe_pairwise (roundAll scored)).imp ?_
+  intro a b hab
+  rcases (rankLe_iff a b).mp hab with h1 | h1
+  · exact Or.inr h1
+  · exact Or.inl h1
+
+/-- **links**: an entry's `betterThanOrSameAs` is exactly its peers (same reported value, other id) followed by
+    all entries holding the next lower distinct value, in ranking order -/
+theorem decideWith_utility_links (exp : Rat → Rat) (aspOrder : List (WCrit Rat) → List (WCrit Rat))
+    (req : Request Rat) (g : Int → Draws Rat) (resp : Response Rat) (mp : MParams Rat)
+    (h : decideWith exp aspOrder req g = .ok resp) (hmp : req.mp = some mp) (hu : e2eIsUtility mp = true) :
+    ∀ e ∈ e2eUtilEntries resp.result,
+      e.links = Spec.C04.peers (e2eUtilEntries resp.result) e ++ Spec.C04.nextLevel (e2eUtilEntries resp.result) e := by
+  obtain ⟨scored, _, _, _, he⟩ := decideWith_utility_result_is_ranking exp aspOrder req g resp mp h hmp hu
+  rw [he]; exact ranking_links_eq scored
+
+/-- **reported values**: every entry carries the 1e-8 rounding of the method's value of a considered
+    alternative of the final state with its id, and every considered alternative has such an entry -/
+theorem decideWith_utility_values {α : Type} [Num α] (exp : α → α)
+    (aspOrder : List (WCrit α) → List (WCrit α)) (req : Request α) (g : Int → Draws α) (resp : Response α)
+    (mp : MParams α) (h : decideWith exp aspOrder req g = .ok resp) (hmp : req.mp = some mp)
+    (hu : e2eIsUtility mp = true) :
+    (∀ e ∈ resp.result, ∃ a ∈ resp.final.co, ∃ v, a.id = e.id ∧
+        utilityValueOf resp.final.mp a = .ok v ∧ e.ev = .util (round8 v)) ∧
+    (∀ a ∈ resp.final.co, ∃ v, utilityValueOf resp.final.mp a = .ok v ∧
+        ∃ e ∈ resp.result, e.id = a.id ∧ e.ev = .util (round8 v)) := by
+  obtain ⟨_, _, scored, hs, hres⟩ := e2e_decideWith_utility h hmp hu
+  exact e2e_utility_values hs hres
+
+/-- **equal rounded values share a level**: two considered alternatives (different ids) whose values under the
+    final state coincide after the 1e-8 rounding are peers — the entry of the one links to the other -/
+theorem decideWith_utility_equal_rounded_values_are_peers (exp : Rat → Rat)
+    (aspOrder : List (WCrit Rat) → List (WCrit Rat)) (req : Request Rat) (g : Int → Draws Rat)
+    (resp : Response Rat) (mp : MParams Rat) (h : decideWith exp aspOrder req g = .ok resp)
+    (hmp : req.mp = some mp) (hu : e2eIsUtility mp = true)
+    (a b : Alt Rat) (ha : a ∈ resp.final.co) (hb : b ∈ resp.final.co) (hid : a.id ≠ b.id) (va vb : Rat)
+    (hva : utilityValueOf resp.final.mp a = .ok va) (hvb : utilityValueOf resp.final.mp b = .ok vb)
+    (hv : round8 va = round8 vb) :
+    ∃ e ∈ e2eUtilEntries resp.result, e.id = a.id ∧ b.id ∈ e.links := by
+  obtain ⟨scored, hs, _, _, he⟩ := decideWith_utility_result_is_ranking exp aspOrder req g resp mp h hmp hu
+  obtain ⟨_, m2⟩ := e2e_scored_mem hs
+  obtain ⟨sa, hsa, hia, hva'⟩ := m2 a ha
+  obtain ⟨sb, hsb, hib, hvb'⟩ := m2 b hb
+  rw [hva] at hva'; rw [hvb] at hvb'
+  cases hva'; cases hvb'
+  rw [he, ← hia, ← hib]
+  exact (rounding_before_comparison scored).2 sa hsa sb hsb (by rw [hia, hib]; exact hid) hv
+
+/-- **reach** (`choseToMake` distinct): following the links from an entry reaches precisely the entries whose
+    reported value is not higher -/
+theorem decideWith_utility_reach (exp : Rat → Rat) (aspOrder : List (WCrit Rat) → List (WCrit Rat))
+    (req : Request Rat) (g : Int → Draws Rat) (resp : Response Rat) (mp : MParams Rat)
+    (h : decideWith exp aspOrder req g = .ok resp) (hmp : req.mp = some mp) (hu : e2eIsUtility mp = true)
+    (hnd : req.chosen.Nodup) (e : RankEntry Rat) (he : e ∈ e2eUtilEntries resp.result) (y : String) :
+    Relation.ReflTransGen (LinkStep (e2eUtilEntries resp.result)) e.id y ↔
+      ∃ r ∈ e2eUtilEntries resp.result, r.id = y ∧ r.v ≤ e.v := by
+  obtain ⟨scored, _, hids, _, heq⟩ := decideWith_utility_result_is_ranking exp aspOrder req g resp mp h hmp hu
+  rw [heq] at he ⊢
+  exact reach scored (by rw [hids]; exact hnd) e he y
+
+/-- **clause 4 for the whole decision**: for requests without an enabled bias, the `result` — value, position
+    and links of every alternative — does not depend on the order in which the alternatives are listed in
+    `knownAlternatives` (distinct ids) or in `choseToMake`, nor on the stream function.
+    (With enabled biases the statement is about the ranking stage only — `ranking_perm_invariant` applied to
+    `decideWith_utility_result_is_ranking`: the biases consume their random streams in list order, so a
+    reordered request is a different experiment.) -/
+theorem decideWith_utility_perm_invariant (exp exp' : Rat → Rat)
+    (aspOrder aspOrder' : List (WCrit Rat) → List (WCrit Rat)) (req req' : Request Rat)
+    (g g' : Int → Draws Rat) (resp resp' : Response Rat) (mp : MParams Rat)
+    (hmp : req.mp = some mp) (hmp' : req'.mp = some mp) (hu : e2eIsUtility mp = true)
+    (hb : ∀ b ∈ req.biases, b.disabled = true) (hb' : ∀ b ∈ req'.biases, b.disabled = true)
+    (hk : req'.known.Perm req.known) (hnd : (req.known.map (·.id)).Nodup) (hc : req'.chosen.Perm req.chosen)
+    (h : decideWith exp aspOrder req g = .ok resp) (h' : decideWith exp' aspOrder' req' g' = .ok resp') :
+    resp'.result = resp.result := by
+  obtain ⟨_, _, scored, hs, hres⟩ := e2e_decideWith_utility h hmp hu
+  obtain ⟨_, _, scored', hs', hres'⟩ := e2e_decideWith_utility h' hmp' hu
+  obtain ⟨m, hm, hpp, _⟩ := e2e_no_bias_pipeline (e2e_decideWith_ok h).1 hb
+  obtain ⟨m', hm', hpp', _⟩ := e2e_no_bias_pipeline (e2e_decideWith_ok h').1 hb'
+  rw [hmp] at hm; cases hm
+  rw [hmp'] at hm'; cases hm'
+  rw [hres, hres', ranking_perm_invariant scored' scored (e2e_scored_perm hk hnd hc hpp hpp' hs hs')]
+
+/-- the hypotheses are satisfiable (weighted sum; fatigue fires and rewrites every value, reversal does not
+    fire, one entry disabled; `"b"` and `"c"` stay tied): the model answers and the C04 checker accepts -/
+example : ∃ resp, Rdm.decide id e2eExWs e2eExSeeds = .ok resp ∧
+    Spec.C04.check (e2eUtilEntries resp.result) = true ∧
+    ((e2eUtilEntries resp.result).map (·.id)).Perm ["c", "a", "b"] := by
+  obtain ⟨resp, h⟩ := e2e_ok_of_isOk (x := Rdm.decide id e2eExWs e2eExSeeds) (by decide +kernel)
+  refine ⟨resp, h, decide_utility_check _ _ _ _ _ h rfl rfl, ?_⟩
+  obtain ⟨scored, _, hids, _, he⟩ := decideWith_utility_result_is_ranking _ _ _ _ _ _ h rfl rfl
+  rw [he, ← show scored.map (·.id) = ["c", "a", "b"] from hids]
+  exact ranking_ids_perm scored
+
+/-- … and OWA -/
+example : ∃ resp, Rdm.decide id e2eExOwa e2eExSeeds = .ok resp ∧
+    Spec.C04.check (e2eUtilEntries resp.result) = true := by
+  obtain ⟨resp, h⟩ := e2e_ok_of_isOk (x := Rdm.decide id e2eExOwa e2eExSeeds) (by decide +kernel)
+  exact ⟨resp, h, decide_utility_check _ _ _ _ _ h rfl rfl⟩
+
+/-- … and of `decideWith_utility_perm_invariant`: the same weighted-sum request listed in two different orders
+    (known alternatives reversed, `choseToMake` reordered), read with different seed tables: same `result` -/
+example : ∃ resp resp', Rdm.decide id e2eExWsPlain e2eExSeeds = .ok resp ∧
+    Rdm.decide id e2eExWsPlain' [] = .ok resp' ∧ resp'.result = resp.result := by
+  obtain ⟨resp, h⟩ := e2e_ok_of_isOk (x := Rdm.decide id e2eExWsPlain e2eExSeeds) (by decide +kernel)
+  obtain ⟨resp', h'⟩ := e2e_ok_of_isOk (x := Rdm.decide id e2eExWsPlain' []) (by decide +kernel)
+  refine ⟨resp, resp', h, h', ?_⟩
+  exact decideWith_utility_perm_invariant _ _ _ _ _ _ _ _ _ _ _ rfl rfl rfl (by decide) (by decide)
+    (List.reverse_perm _) (by decide) (by decide) h h'
 
 end Rdm.Props.C04
